@@ -54,7 +54,7 @@ def run_one(m):
             r = subprocess.run(['patch', '-p3', '-s', '-d', root, '-i', m['patch']], capture_output=True, text=True)
             if r.returncode:
                 return m, 'STALE', f'patch {m["patch"]} does not apply: {(r.stdout + r.stderr)[-200:]}'
-            edits = []
+            edits = m.get('then') or []     # edits on top of the patch (a refactoring, then a break)
         for e in edits:
             err = apply_edit(root, dict(e, file=e.get('file', m.get('file'))))
             if err:
